@@ -579,6 +579,21 @@ def _constraint_association_gain(
                 gain = sorted_distances[i, 3]
                 bisect.insort(transfer[cur, dest], (gain, ind))
 
+    # Swapped points are not considered again: a cluster may still be above
+    # its quota. A last pass of plain transfers restores every quota.
+    for i in range(0, sorted_distances.shape[0]):
+        ind = int(sorted_distances[i, 1])
+        dest = int(sorted_distances[i, 2])
+        cur = labels[ind]
+        if cur == dest:
+            continue
+        if (counters[dest] < ave + leftclose[dest]) and (
+            counters[cur] > ave + leftclose[cur]
+        ):
+            labels[ind] = dest
+            counters[cur] -= 1
+            counters[dest] += 1
+
     neg = (counters < ave).sum()
     assert neg <= 0, f"The algorithm failed, counters={counters}"
 
